@@ -182,10 +182,22 @@ def model_of(world, ob, timeout_ms=20000):
         elif kind == 'term' and z3.is_seq(entry[1]):
             ints.append(z3.Length(entry[1]))
     import threading
-    for bound in (4, 12, 40, None):
+    hints = []
+    for mk in getattr(world, 'model_hints', {}).values():
+        # a fact about every input string (instantiated on the inputs: ground, or quantified over the index of a list of strings)
+        for entry in ob.vars.values():
+            if entry[0] == 'term' and z3.is_string(entry[1]):
+                hints.append(mk(entry[1]))
+            elif entry[0] == 'arrlist' and entry[1].sort().range() == z3.StringSort():
+                k = z3.Int('k!hint')
+                hints.append(z3.ForAll([k], mk(z3.Select(entry[1], k))))
+    plan = [(4, True)] if hints else []
+    plan += [(b, False) for b in (4, 12, 40, None)]
+    for bound, with_hints in plan:
         s = z3.Solver()
-        s.set('timeout', timeout_ms)
-        watchdog = threading.Timer(timeout_ms / 1000 + 5, z3.main_ctx().interrupt)
+        budget = min(timeout_ms, 8000) if with_hints else timeout_ms
+        s.set('timeout', budget)
+        watchdog = threading.Timer(budget / 1000 + 5, z3.main_ctx().interrupt)
         watchdog.daemon = True
         watchdog.start()
         for a in relevant_axioms(list(world.axioms) + list(ob.axioms), list(ob.pc) + [ob.goal]):
@@ -193,6 +205,9 @@ def model_of(world, ob, timeout_ms=20000):
         for c in ob.pc:
             s.add(c)
         s.add(z3.Not(ob.goal))
+        if with_hints:
+            for h in hints:
+                s.add(h)
         if bound is not None:
             for t in ints:
                 s.add(t <= bound, t >= -bound)
